@@ -221,7 +221,7 @@ PLAN = {
               "random code/options/payload, through CoapResponse::new, CoapRequest::from_packet and via the wire; every "
               "HandlingError constructor x every named status x response present/absent x pre-set content format. "
               "distinct_nontrivial = distinct (type, version, token length, mid high byte) + distinct error shapes"),
-        quick=[L("dbg", 1, 1, 16), L("rel", 1, 1, 16), L("miri", 0, 1, 16, 1500)],
+        quick=[L("dbg", 1, 1, 16), L("rel", 1, 1, 16)],
         thorough=[L("dbg", 2, 1, 16, 3600), L("rel", 2, 1, 16, 3600), L("miri", 0, 1, 4, 3600)],
     ),
     "C08": dict(
@@ -231,7 +231,7 @@ PLAN = {
               "overhead+28..1280, strategies {no Block2, early negotiation, size reduction mid-transfer}, several reply option "
               "sets. Oracle: the body the application produced. distinct_nontrivial = distinct (server block size, length mod "
               "size, block count bucket, strategy, option-set size)"),
-        quick=[L("dbg", 1, 300, 16), L("rel", 1, 300, 16), L("miri", 0, 3, 12, 1500)],
+        quick=[L("dbg", 1, 300, 16), L("rel", 1, 300, 16)],
         thorough=[L("dbg", 2, 12000, 16, 3600), L("rel", 2, 12000, 16, 3600), L("asan", 0, 500, 8), L("miri", 0, 15, 8, 3600)],
     ),
     "C09": dict(
@@ -242,7 +242,7 @@ PLAN = {
               "Oracle: the body the client sent. distinct_nontrivial = distinct (block size, length mod size, block count bucket, "
               "abandoned blocks, abandoned size, duplicates?)"),
         assumptions=["a retransmitted FINAL block is message-layer deduplication's job and is not asserted as exactly-once (DESIGN.md C09)"],
-        quick=[L("dbg", 1, 400, 16), L("rel", 1, 400, 16), L("miri", 0, 3, 12, 1500)],
+        quick=[L("dbg", 1, 400, 16), L("rel", 1, 400, 16)],
         thorough=[L("dbg", 2, 15000, 16, 3600), L("rel", 2, 15000, 16, 3600), L("asan", 0, 500, 8), L("miri", 0, 15, 8, 3600)],
     ),
     "C10": dict(
@@ -264,7 +264,7 @@ PLAN = {
               "replies 0..10000 bytes / large options / own Block2; directed far-jump sequences per SZX. Monitors: panic capture "
               "on both entry points, error renderability, buffered-upload length before/after each call (hook) and body handed "
               "over. distinct_nontrivial = distinct (budget bucket, block option shapes, overhead>budget, type, outcome)"),
-        quick=[L("dbg", 1, 6000, 16), L("rel", 1, 6000, 16), L("miri", 0, 12, 12, 1500)],
+        quick=[L("dbg", 1, 6000, 16), L("rel", 1, 6000, 16), L("miri", 0, 5, 12, 1500)],
         thorough=[L("dbg", 2, 150000, 16, 3600), L("rel", 2, 150000, 16, 3600), L("asan", 0, 20000, 8), L("miri", 0, 60, 8, 3600)],
     ),
     "C12": dict(
@@ -283,7 +283,7 @@ PLAN = {
               "/ all (thorough) 3-byte strings, random 3..6-byte strings; BlockValue::new over num {0..4097, 65535, 65536, max} x "
               "sizes 0..8200 and 2^k+-1. Oracle: arithmetic. distinct_nontrivial = sampled distinct triples + (szx, num) "
               "construction classes"),
-        quick=[L("dbg", 1, 2000, 8), L("rel", 1, 2000, 8), L("miri", 0, 50, 2, 1500)],
+        quick=[L("dbg", 1, 2000, 8), L("rel", 1, 2000, 8), L("miri", 0, 20, 8, 1500)],
         thorough=[L("dbg", 2, 50000, 16), L("rel", 2, 50000, 16), L("miri", 0, 200, 4, 3600)],
     ),
     "C14": dict(
@@ -332,8 +332,8 @@ PLAN = {
               "EVERY call index k < N x {fail once, fail from k on} x newline on/off; oracle: final finish() is Err, every "
               "per-link finish() after the fault is Err, no write accepted after call k, sink content is a prefix of the "
               "fault-free output. distinct_nontrivial = distinct documents (each with its complete fault plan set)"),
-        quick=[L("dbg", 1, 20, 16), L("rel", 1, 20, 16), L("miri", 0, 1, 4, 1500)],
-        thorough=[L("dbg", 2, 1200, 16, 3600), L("rel", 2, 1200, 16, 3600), L("miri", 0, 4, 8, 3600)],
+        quick=[L("dbg", 1, 20, 16), L("rel", 1, 20, 16)],
+        thorough=[L("dbg", 2, 1200, 16, 3600), L("rel", 2, 1200, 16, 3600), L("miri", 0, 1, 8, 3600)],
     ),
     "C19": dict(
         level="exploration", design="DESIGN.md#C19",
@@ -342,7 +342,7 @@ PLAN = {
               "(thorough) with four prior states + random paths; raw Observe bytes of length 0..6; random messages through "
               "both coap-message trait versions (read, write, set_from_message, payload_mut_with_len, truncate, mutate_options). "
               "distinct_nontrivial = distinct names / paths / raw classes / message signatures"),
-        quick=[L("dbg", 1, 2000, 16), L("rel", 1, 2000, 16), L("nostd", 1, 500, 2), L("miri", 0, 20, 4, 1500)],
+        quick=[L("dbg", 1, 2000, 16), L("rel", 1, 2000, 16), L("nostd", 1, 500, 2)],
         thorough=[L("dbg", 2, 60000, 16), L("rel", 2, 60000, 16), L("nostd", 2, 20000, 4), L("miri", 0, 100, 8, 3600)],
     ),
     "C20": dict(
